@@ -551,6 +551,10 @@ def run(prog, rep, tier):
     check_flag_q(prog, rep, mods=[pyx])
     check_flag_l(prog, rep)
     check_coupled_array(prog, rep)
+    rep.rule('COUPLED-shared-list', 'the list _data, shared with shallow copies, never changes its '
+             'length in place (only by re-binding, like _qdata)')
+    if check_shared_data_list(prog, rep) < 20:
+        raise AnalysisError('COUPLED-shared-list: fewer than 20 Array methods touch _data')
     check_rank_change(prog, rep)
     n_ob, n_dis = check_charge_c02(prog, rep)
     rep.rule('DTYPE-blocks', 'the dtype claim of an Array is not re-stated from a single block '
@@ -619,4 +623,47 @@ def check_dtype_blocks(prog, rep):
                               'statements): a block kept from one operand can have another '
                               'dtype than the claim' % (key_text(st)[:60], q,
                                                         len(producers) + len(other)), st.lineno)
+    return n
+
+
+# ------------------------------------------------------------------ COUPLED-shared-list
+def check_shared_data_list(prog, rep):
+    """COUPLED-shared-list: `_data` (list of blocks) and `_qdata` (one row per block) are coupled,
+    and a shallow copy (copy(deep=False), replace_label, gauge_total_charge, ...) shares the LIST
+    `_data` while `_qdata` is an array that can only be re-bound. A method that changes the length
+    of `self._data` in place (append / insert / pop / extend / remove / del) therefore leaves every
+    shallow copy with more (fewer) blocks than rows: lengths change by re-binding only."""
+    m = prog.module(NPC)
+    ct = prog.classtable()
+    ci = ct.get('Array')
+    grow = ('append', 'insert', 'pop', 'extend', 'remove', 'clear')
+
+    def scan(f):
+        out = []
+        for x in ast.walk(f):
+            if isinstance(x, ast.Call) and isinstance(x.func, ast.Attribute) and \
+                    x.func.attr in grow and unparse(x.func.value) == 'self._data':
+                out.append(x)
+            if isinstance(x, ast.Delete) and any(
+                    isinstance(t, ast.Subscript) and unparse(t.value) == 'self._data'
+                    for t in x.targets):
+                out.append(x)
+            if isinstance(x, ast.AugAssign) and unparse(x.target) == 'self._data':
+                out.append(x)
+        return out
+    fx = ast.parse("def get_block(self, q):\n    self._data.append(q)\n"
+                   "    self._qdata = np.append(self._qdata, [q], axis=0)\n").body[0]
+    rep.control('COUPLED-shared-list', len(scan(fx)) == 1)
+    n = 0
+    for name, f in ci.methods.items():
+        if '_data' not in unparse(f):
+            continue
+        n += 1
+        for x in scan(f):
+            rep.violation('COUPLED-shared-list', m, 'Array.' + name, 'inplace-length:_data',
+                          '`%s` changes the length of the list self._data in place; shallow copies '
+                          'share that list but not _qdata, so they are left with a different '
+                          'number of blocks than rows of _qdata (test_sanity fails on the copy / '
+                          'the source)' % key_text(x)[:60], x.lineno)
+    rep.instance('COUPLED-shared-list', {'methods_of_Array_touching__data': n})
     return n
